@@ -17,7 +17,7 @@ Proof.
 Qed.
 
 Lemma set_head_commit_ok : forall c s s1, set_head_commit c s = (None, s1) ->
-  commits s1 = commits s /\ idx s1 = idx s /\ wt s1 = wt s /\ head_commit s1 = Some c.
+  objs s1 = objs s /\ idx s1 = idx s /\ wt s1 = wt s /\ head_commit s1 = Some c.
 Proof.
   intros c s s1. unfold set_head_commit, head_commit.
   destruct (head s) eqn:Eh.
@@ -122,7 +122,7 @@ Definition wt_after (m : rmode) (t pv ix w : fmap) (p : bytes) : option fent :=
 
 Lemma apply_reset_ok : forall c t pv m s s', apply_reset c t pv m s = (None, s') ->
   exists s1, set_head_commit c s = (None, s1) /\
-    commits s' = commits s /\ refs s' = refs s1 /\ head s' = head s1 /\
+    objs s' = objs s /\ refs s' = refs s1 /\ head s' = head s1 /\
     agree (idx s') t /\
     forall p, lookup p (wt s') = wt_after m t pv (idx s) (wt s) p.
 Proof.
@@ -194,7 +194,7 @@ Lemma reset_commit_target : forall commit s c, reset_commit commit s = (None, c)
 Proof.
   intros commit s c. unfold reset_commit, reset_target. destruct (commit =? -1)%Z.
   - destruct (head_commit s); intro H; now inversion H.
-  - destruct (tree_of s commit); intro H; now inversion H.
+  - destruct (commit_exists s commit); intro H; now inversion H.
 Qed.
 
 Lemma reset_ok : forall commit m from s s',
@@ -202,7 +202,7 @@ Lemma reset_ok : forall commit m from s s',
   exists c t s1,
     reset_target commit s = Some c /\ tree_of s c = Some t /\
     set_head_commit c s = (None, s1) /\
-    commits s' = commits s /\ refs s' = refs s1 /\ head s' = head s1 /\
+    objs s' = objs s /\ refs s' = refs s1 /\ head s' = head s1 /\
     agree (idx s') t /\
     (forall p, lookup p (wt s') = wt_after m t (prev_of m from s) (idx s) (wt s) p) /\
     (m = Merge -> unstaged s = false) /\
@@ -230,20 +230,38 @@ Qed.
 
 (* ---------- Checkout: the phase before Reset *)
 
-Lemma tree_of_commits : forall s1 s c, commits s1 = commits s -> tree_of s1 c = tree_of s c.
-Proof. intros s1 s c H. unfold tree_of. now rewrite H. Qed.
+Lemma tree_of_commits : forall s1 s c, objs s1 = objs s -> tree_of s1 c = tree_of s c.
+Proof. intros s1 s c H. unfold objs in H. inversion H as [[H1 H2]]. unfold tree_of. now rewrite H1, H2. Qed.
+
+Lemma commit_exists_objs : forall s1 s c, objs s1 = objs s -> commit_exists s1 c = commit_exists s c.
+Proof. intros s1 s c H. unfold objs in H. inversion H as [[H1 H2]]. unfold commit_exists. now rewrite H1. Qed.
+
+Lemma checkoutable_objs : forall s1 s c, objs s1 = objs s -> checkoutable s1 c = checkoutable s c.
+Proof. intros s1 s c H. unfold checkoutable. now rewrite (tree_of_commits s1 s c H). Qed.
+
+Lemma tree_of_exists : forall s c t, tree_of s c = Some t -> commit_exists s c = true.
+Proof.
+  intros s c t. unfold tree_of, commit_exists. destruct (c <? 0)%Z; [discriminate|].
+  destruct (existsb (Z.eqb c) (notree s)); [discriminate|]. now intros ->.
+Qed.
+
+Lemma checkoutable_tree : forall s c, checkoutable s c = None -> exists t, tree_of s c = Some t.
+Proof.
+  intros s c. unfold checkoutable. destruct (is_noncommit c); [discriminate|].
+  destruct (tree_of s c); [eauto|discriminate].
+Qed.
 
 Lemma unstaged_frame : forall s1 s, idx s1 = idx s -> wt s1 = wt s -> unstaged s1 = unstaged s.
 Proof. intros s1 s H1 H2. unfold unstaged. now rewrite H1, H2. Qed.
 
 Lemma create_branch_spec : forall o br s e h s1, create_branch o br s = (e, (h, s1)) ->
-  commits s1 = commits s /\ head s1 = head s /\ idx s1 = idx s /\ wt s1 = wt s /\
+  objs s1 = objs s /\ head s1 = head s /\ idx s1 = idx s /\ wt s1 = wt s /\
   (forall n, n <> br -> lookup n (refs s1) = lookup n (refs s)) /\
   (co_create o = false -> s1 = s /\ h = co_hash o /\ e = None) /\
   (e <> None -> s1 = s) /\
   (e = None -> co_create o = true ->
      lookup br (refs s) = None /\ refs s1 = insert br h (refs s) /\
-     (exists t, tree_of s h = Some t) /\
+     checkoutable s h = None /\
      (co_hash o = (-1)%Z -> head_commit s = Some h) /\ (co_hash o <> (-1)%Z -> h = co_hash o)).
 Proof.
   intros o br s e h s1. unfold create_branch.
@@ -252,22 +270,20 @@ Proof.
     + intro H; inversion H; subst. repeat split; auto; try discriminate.
     + destruct (co_hash o =? -1)%Z eqn:Ez.
       * destruct (head_commit s) as [hc|] eqn:Eh.
-        -- destruct (tree_of s hc) eqn:Et; intro H; inversion H; subst; cbn;
+        -- destruct (checkoutable s hc) eqn:Et; intro H; inversion H; subst; cbn;
              repeat split; auto; try discriminate; try congruence.
            ++ intros n Hn. now apply lookup_insert_neq.
-           ++ eauto.
            ++ intro X. apply Z.eqb_eq in Ez. congruence.
         -- intro H; inversion H; subst. repeat split; auto; try discriminate; congruence.
-      * destruct (tree_of s (co_hash o)) eqn:Et; intro H; inversion H; subst; cbn;
+      * destruct (checkoutable s (co_hash o)) eqn:Et; intro H; inversion H; subst; cbn;
           repeat split; auto; try discriminate; try congruence.
         -- intros n Hn. now apply lookup_insert_neq.
-        -- eauto.
         -- intro X. apply Z.eqb_neq in Ez. congruence.
   - intro H; inversion H; subst. repeat split; auto; try discriminate; congruence.
 Qed.
 
 Lemma move_head_spec : forall o br hash c s e s2, move_head o br hash c s = (e, s2) ->
-  commits s2 = commits s /\ refs s2 = refs s /\ idx s2 = idx s /\ wt s2 = wt s /\
+  objs s2 = objs s /\ refs s2 = refs s /\ idx s2 = idx s /\ wt s2 = wt s /\
   (e <> None -> s2 = s).
 Proof.
   intros o br hash c s e s2. unfold move_head.
@@ -285,7 +301,7 @@ Lemma checkout_pre_inv : forall o s e x s2, checkout_pre o s = (e, (x, s2)) ->
      (co_mode o = Hard -> head_tree s <> HTErr) /\
      create_branch o (co_branch_name o) s = (None, (h, sa)) /\
      (if (h =? -1)%Z then lookup (co_branch_name o) (refs sa) else Some h) = Some c /\
-     (exists t, tree_of sa c = Some t) /\
+     checkoutable sa c = None /\
      move_head o (co_branch_name o) h c sa = (e3, s2) /\ e = e3 /\
      (e3 = None ->
         x = (c, co_mode o, match (match co_mode o with Hard => head_tree s | _ => HTNone end) with HTTree f => Some f | _ => None end))).
@@ -301,23 +317,23 @@ Proof.
    destruct e1; [left; inversion H; subst; split; [discriminate | apply A7; discriminate]|];
    unfold resolve_commit in H;
    destruct (if (h =? -1)%Z then lookup (co_branch_name o) (refs sa) else Some h) as [c|] eqn:Er;
-   [destruct (tree_of sa c) as [tt|] eqn:Et |];
-   [ destruct (move_head o (co_branch_name o) h c sa) as [e3 sb] eqn:Em;
+   [destruct (checkoutable sa c) as [ek|] eqn:Et |];
+   [ | destruct (move_head o (co_branch_name o) h c sa) as [e3 sb] eqn:Em;
      right; exists h, sa, c, e3;
      assert (s2 = sb /\ e = e3) as [-> ->] by (destruct e3; inversion H; auto);
      repeat split; eauto;
      [ intro X; rewrite X in Eu; exact Eu
      | intro X; rewrite X in Ef; rewrite Ef; discriminate
      | intro X; subst e3; inversion H; reflexivity ]
-   | | ]).
+   | ]).
   (* the two resolve_commit errors: possible only without Create (then sa = s) *)
   all: destruct (co_create o) eqn:Ecr.
   all: try (destruct (create_branch_spec _ _ _ _ _ _ Ec) as (_ & _ & _ & _ & _ & A6 & _);
             destruct (A6 Ecr) as (-> & _ & _); left; inversion H; split; [discriminate|reflexivity]).
   all: exfalso; destruct (create_branch_spec _ _ _ _ _ _ Ec) as (B1 & _ & _ & _ & _ & _ & _ & A8);
-       destruct (A8 eq_refl Ecr) as (_ & B2 & (t9 & Bt) & _ & _).
+       destruct (A8 eq_refl Ecr) as (_ & B2 & Bt & _ & _).
   all: try (assert (c = h) by (destruct (h =? -1)%Z; [rewrite B2, lookup_insert_eq in Er|]; congruence); subst c;
-            rewrite (tree_of_commits sa s _ B1) in Et; congruence).
+            rewrite (checkoutable_objs sa s _ B1) in Et; congruence).
   all: destruct (h =? -1)%Z; [rewrite B2, lookup_insert_eq in Er|]; discriminate.
 Qed.
 
@@ -344,7 +360,7 @@ Qed.
 Lemma checkout_pre_ok : forall o s c m from s2,
   checkout_pre o s = (None, ((c, m, from), s2)) ->
   m = co_mode o /\ (exists t, tree_of s c = Some t) /\ head_commit s2 = Some c /\
-  commits s2 = commits s /\ idx s2 = idx s /\ wt s2 = wt s /\
+  objs s2 = objs s /\ idx s2 = idx s /\ wt s2 = wt s /\
   (m = Merge -> unstaged s = false) /\
   (m = Hard -> prev_of Hard from s2 = tree_or_empty (head_tree s) \/
                tree_of s c = Some (prev_of Hard from s2)) /\
@@ -355,8 +371,9 @@ Lemma checkout_pre_ok : forall o s c m from s2,
   end.
 Proof.
   intros o s c m from s2 H.
-  destruct (checkout_pre_inv _ _ _ _ _ H) as [[X _]|(h & sa & c1 & e3 & _ & Hu & Hh & Ec & Er & (t & Ht) & Em & He & Hx)];
+  destruct (checkout_pre_inv _ _ _ _ _ H) as [[X _]|(h & sa & c1 & e3 & _ & Hu & Hh & Ec & Er & Hck & Em & He & Hx)];
     [now contradiction X|].
+  destruct (checkoutable_tree _ _ Hck) as (t & Ht).
   subst e3. specialize (Hx eq_refl). inversion Hx; subst c1 m from. clear Hx.
   destruct (create_branch_spec _ _ _ _ _ _ Ec) as (A1 & A2 & A3 & A4 & A5 & A6 & _ & A8).
   destruct (move_head_spec _ _ _ _ _ _ _ Em) as (C1 & C2 & C3 & C4 & _).
@@ -420,7 +437,7 @@ Proof.
   assert (Erc : reset_commit c s2 = (None, c)).
   { unfold reset_commit. destruct (c =? -1)%Z.
     - now rewrite Hc.
-    - now rewrite (tree_of_commits s2 s c F1), Ht. }
+    - now rewrite (commit_exists_objs s2 s c F1), (tree_of_exists _ _ _ Ht). }
   rewrite Erc. rewrite (tree_of_commits s2 s c F1), Ht.
   unfold co_mode in Hm. destruct (co_force o).
   - subst m. cbv beta iota. unfold prev_tree.
@@ -446,7 +463,7 @@ Qed.
 (* a successful Checkout that runs a real Reset (Force, or neither Force nor Keep) *)
 Lemma checkout_ok : forall o s s', checkout o s = (None, s') -> co_mode o <> Soft ->
   exists c t pv,
-    checkout_target o s = Some c /\ tree_of s c = Some t /\ commits s' = commits s /\
+    checkout_target o s = Some c /\ tree_of s c = Some t /\ objs s' = objs s /\
     head_commit s' = Some c /\ agree (idx s') t /\
     (forall p, lookup p (wt s') = wt_after (co_mode o) t pv (idx s) (wt s) p) /\
     (co_mode o = Hard -> pv = tree_or_empty (head_tree s) \/ pv = t) /\
